@@ -12,7 +12,7 @@ MemOps == {o \in OpSig : o.imm \in {"mem1", "mem2", "mem4", "mem8", "mem16", "me
 (* one operation per signature class, for exhaustive enumeration of short bodies *)
 ClassOps == {o \in ScalarOps : o.op \in {"i32.const", "i64.const", "f32.const", "f64.const", "i32.add", "i64.mul", "f32.div", "f64.sqrt", "i32.eqz",
                                         "i64.lt_s", "f64.ge", "i32.wrap_i64", "i64.extend_i32_u", "f32.demote_f64", "i32.trunc_f32_s", "i32.load", "i64.store"}}
-AllFeatures == {"grow", "bulk", "table", "brtable", "atomic", "tailcall", "host"}
+AllFeatures == {"grow", "bulk", "table", "brtable", "atomic", "tailcall", "host", "multi", "dead"}
 HostPool == {S(<<"i32", "i64">>, <<"i64">>), S(<<"f32", "f64">>, <<"f64">>), S(<<"i32">>, <<>>), S(<<>>, <<"i32">>)}
 NoFeatures == {}
 P_ii == <<"i32", "i64">>   R_i == <<"i32">>
